@@ -311,7 +311,8 @@ class OperatorNode(ASTNode):
                           .replace('_R_', '_REF_')
                           .replace('_C_', '_REF_')
                           )
-            if not WRITTEN_REFERENCE_RE.sub('', ss[8:-2]).strip(' ()*&'):
+            if not WRITTEN_REFERENCE_RE.sub('', ss[8:-2]).replace(
+                    '_REF_(str(', '').strip(' ()*&'):
                 # both references are written (maybe in parentheses, maybe
                 # a union or an intersection themselves), the union (which
                 # covers more cells than the two of them) is known, and so
